@@ -14,3 +14,9 @@ def f(x):
     j = os.environ["HOME"]
     k = os.environ.get("USER")
     return a, b, c, d, e, g, h, i, j, k
+
+import gzip
+
+
+def g(data):
+    return gzip.compress(data)
